@@ -63,7 +63,7 @@ func c02Segment(sc *WF, seg []Ev) string {
 	if wantFb == 1 {
 		fb := fbs[0]
 		lastErr := execs[len(execs)-1].RetErr
-		if fb.InErr != lastErr {
+		if !sameErr(fb.InErr, lastErr) {
 			return fmt.Sprintf("%s: fallback received error %q, the last attempt returned %q", name, fb.InErr, lastErr)
 		}
 		if !samePayload(fb.In, prep.Ret) {
@@ -216,7 +216,7 @@ func init() { registerReplay("C02", checkC02) }
 // ---- every item of a batch gets the same exact retry/fallback treatment
 
 func checkC02Batch(t *testing.T, sc BatchSc) Verdict {
-	sc.Mode = modeContinue(sc.Mode)
+	// stop mode included: every item that is executed at all still gets its full budget
 	sc.PrepErr = 0
 	x, br, fail := runBatchCase(t, &sc, nil)
 	if fail != "" {
@@ -235,6 +235,9 @@ func checkC02Batch(t *testing.T, sc BatchSc) Verdict {
 		}
 	}
 	cls := []string{"batch-item"}
+	if sc.stop() {
+		cls = append(cls, "batch-stop-mode")
+	}
 	if sc.C > 0 {
 		cls = append(cls, "batch-concurrent")
 	} else {
@@ -288,7 +291,7 @@ func checkC02Flow(t *testing.T, sc WF) Verdict {
 func c02Batch(r *Run) {
 	gf := wfGen{MaxLeaves: 4, MaxFlows: 3, Actions: []string{"a", "b", ""}, PErr: 120, PExecErr: 350, MaxN: 2, Waits: true, MaxVisits: 3, FuelMax: 8, FlowRetry: true, Kinds: []int{KBase, KPlain, KFunc, KPlainRetry}}
 	rapidPart(r, "flow-retry", r.pick(2000, 30000), gf.gen, checkC02Flow)
-	g := batchGen{MinN: 1, MaxN: r.pick(4, 16), MaxC: 3, Modes: []int{0, 1}, MaxBudget: 8, PFail: 550, Fb: true, Gated: 1, MaxSched: 40, Waits: true}
+	g := batchGen{MinN: 1, MaxN: r.pick(4, 16), MaxC: 3, Modes: []int{0, 1, 2}, MaxBudget: 8, PFail: 550, Fb: true, Gated: 1, MaxSched: 40, Waits: true}
 	rapidPart(r, "batch-items", r.pick(3000, 60000), g.gen, checkC02Batch)
 }
 
